@@ -130,6 +130,10 @@ func Empty[T any]() T {
 
 func toS(arg any) string {
 	rval := reflect.ValueOf(arg)
+	if rval.CanUint() {
+		// rval.Int() panics on the unsigned kinds
+		return fmt.Sprintf("%d", rval.Uint())
+	}
 	switch rval.Kind() {
 	case reflect.Int, reflect.Int8, reflect.Int16, reflect.Int32, reflect.Int64, reflect.Uint, reflect.Uint8, reflect.Uint16, reflect.Uint32, reflect.Uint64, reflect.Uintptr:
 		return fmt.Sprintf("%d", rval.Int())
